@@ -116,13 +116,15 @@ class PoolSites(Task):
             if r:
                 src = ast.unparse(r[0])
                 ok = f"list(map({worker}, {tasks_}))" in src and f"pool.map({worker}, {tasks_})" in src
-            ctx.oblige(f"serial=parallel: {fq.rsplit('.', 1)[1]} applies the same worker to the same task list in both modes", ok, "P")
+            # (a source pattern can only confirm: code of another shape is undecided here and left to the run-time comparison
+            #  of serial and parallel runs)
+            ctx.structure(f"serial=parallel: {fq.rsplit('.', 1)[1]} applies the same worker to the same task list in both modes", ok)
         r = repo.func("amr_kitchen.chef.chef.Chef.cook")
         ok = False
         if r:
             src = ast.unparse(r[0])
             ok = "self.knife(args)" in src and "for args in tqdm(mp_calls)" in src and "pool.imap(self.knife, mp_calls)" in src
-        ctx.oblige("serial=parallel: Chef.cook applies the same knife to the same task list in both modes", ok, "P")
+        ctx.structure("serial=parallel: Chef.cook applies the same knife to the same task list in both modes", ok)
         # results of ordered calls are consumed in submission order next to the task list (no sort / reverse / set)
         bad = []
         for (fq, meth), lines in sites.items():
